@@ -192,6 +192,16 @@ def _make_fault(rng, w: World, cls, fresh):
         if len(with_ref) < 2:
             return None
         t, o = rng.sample(with_ref, 2)
+        # a subclass with a reference unit of its own is another type too,
+        # although its instances are instances of the parent class
+        subs = [(w.types[getattr(s_, "subclass_of", None)], s_)
+                for s_ in with_ref
+                if getattr(s_, "subclass_of", None) in w.types and
+                w.types[s_.subclass_of] in with_ref]
+        if subs and rng.random() < 0.6:
+            t, o = rng.choice(subs)
+            if rng.random() < 0.3:
+                t, o = o, t
         sym = fresh("s")
         e = M(V(t.name), "new_unit", ["s", sym], ["s", "x"],
               OP("*", num(F(5, 2)), U(rng.choice(
